@@ -38,7 +38,7 @@ def keys_for(alg: str, enc: str, i: int):
     return K.get(K.jwe_key_kind(alg, enc), i % 2), None
 
 
-def one(sc, idx: int, seed: int, with_ref: bool):
+def _one_impl(sc, idx: int, seed: int, with_ref: bool):
     from joserfc import jwe
     from joserfc.jwk import KeySet
     from joserfc.errors import ConflictAlgorithmError, InvalidEncryptionAlgorithmError
@@ -198,6 +198,17 @@ def execute(ctx: Ctx, with_ref: bool, prop_filter=None) -> None:
     ctx.notes.update(abstract_scenarios=total, executed=len(items))
     ctx.sample(scs[5]); ctx.sample(scs[20000]); ctx.sample(scs[-3])
 
+
+
+def one(sc, idx: int, seed: int, with_ref: bool):
+    from .common import from_library
+    try:
+        return _one_impl(sc, idx, seed, with_ref)
+    except Exception as e:  # noqa
+        where = from_library(e)
+        if where is None:
+            raise
+        return [("library-raised:" + where.split("@")[0], where)]
 
 def run(ctx: Ctx) -> None:
     execute(ctx, with_ref=False, prop_filter=lambda w: not w.startswith("ref-"))
